@@ -406,7 +406,7 @@ func Run(r *mc.Run) {
 		depth = map[string]int{"acct": 6, "val": 6, "stk": 6, "slots": 7}
 		r.SetBudget(40 * 60e9)
 	} else {
-		r.SetBudget(240e9)
+		r.SetBudget(480e9)
 	}
 	r.SetExtra("depth_per_alphabet", depth)
 	r.Assume("validator records are only mutated through production call patterns; RemoveValidator excluded (no production caller)")
